@@ -299,6 +299,11 @@ def check_optimality(case, ctx):
     ctx.label(case["tomo"], case["shape"], f"flag:{case['flag']}", case["loss"], "data:" + case["datadesc"]["data"], case["stop_mode"])
     res, loss = c10.run_lossmin(case, qt, empi)
     det = res.detailed_results[0]
+    # the loss that was minimised is the loss of exactly the data handed to the estimator
+    held = getattr(loss, "prob_dists_q", None)
+    if ctx.check(held is not None and len(held) == len(empi), "loss_holds_the_given_data:len", f"{None if held is None else len(held)}"):
+        for j, (hq, (_, qj)) in enumerate(zip(held, empi)):
+            ctx.equal(np.asarray(hq, dtype=float), np.asarray(qj, dtype=float), "loss_holds_the_given_data", f"schedule {j}")
     if det.k >= case["max_iter"] or c10.proj_cap_hit(ctx):
         ctx.skip("max-iteration")
         return
